@@ -19,7 +19,7 @@ RULE = ('seeded generator: circular / hexagon-like / segmented / off-centre / sp
 ASSUMPTIONS = ['modes linearly independent on the mask (condition number < 1e8), as the property requires']
 PLAN = {'quick': {'gen': 8}, 'thorough': {'gen': 16, 'tests': 1}}
 REQUIRED_BUCKETS = ['modes:contiguous', 'modes:noncontiguous', 'modes:unordered', 'modes:single-high', 'normalize:True',
-                    'normalize:False', 'coords:default', 'coords:supplied', 'mask:circular', 'mask:segmented', 'mask:offcentre', 'mask:weighted', 'mask:subaperture', 'cond>1e4', 'coords:switched', 'outside:fill', 'coeffs:vector-forms', 'modes:very-high']
+                    'normalize:False', 'coords:default', 'coords:supplied', 'mask:circular', 'mask:segmented', 'mask:offcentre', 'mask:weighted', 'mask:subaperture', 'cond>1e4', 'coords:switched', 'outside:fill', 'coeffs:vector-forms', 'modes:very-high', 'modes:permuted-prefix', 'modes:many']
 REQUIRED_ANCHORS = ['anchor:zernike_fit', 'anchor:zernike_remove', 'anchor:zernike_compose', 'anchor:zernike_basis']
 REQUIRED_ORACLES = ['compose=own-basis', 'fit=coeffs', 'remove:residual-coeffs=0', 'remove=lstsq', 'remove:idempotent',
                     'remove:pure->0']
@@ -94,6 +94,15 @@ def workload(ctx, lentil):
             mask = np.hypot(ii_ - r0_, jj_ - c0_) <= rng.uniform(0.12, 0.2) * shape[0]
             mk = 'subaperture'
         sel = int(rng.integers(0, 4))
+        if i % 8 == 5 and not sub:
+            sel = 5          # the first k modes in another order
+        elif i % 8 == 1 and not sub:
+            sel = 6          # more modes than any internal block size, on a mask large enough to resolve them
+            shape = (int(rng.integers(26, 34)),) * 2
+            mask, mk = make_mask(rng, shape)
+            if mask.sum() < 200:
+                ii_, jj_ = np.indices(shape)
+                mask, mk = np.hypot(ii_ - shape[0] / 2, jj_ - shape[1] / 2) <= 0.45 * shape[0], 'circular'
         if sub:
             modes = list(range(1, int(rng.integers(8, 22)) + 1)); mb = 'modes:contiguous'
         elif sel == 0:
@@ -106,6 +115,16 @@ def workload(ctx, lentil):
             modes = rng.permutation(rng.choice(np.arange(1, 22), size=int(rng.integers(2, 9)), replace=False)).tolist(); mb = 'modes:unordered'
             if modes == sorted(modes):
                 modes = modes[::-1]
+        elif sel == 5:
+            k_ = int(rng.integers(2, 9))
+            modes = rng.permutation(np.arange(1, k_ + 1)).tolist(); mb = 'modes:permuted-prefix'
+            if modes == sorted(modes):
+                modes = modes[1:] + modes[:1]
+        elif sel == 6:
+            k_ = int(rng.integers(33, 56))
+            modes = list(range(1, k_ + 1)); mb = 'modes:many'
+            if i % 16 == 1:
+                modes = rng.permutation(modes).tolist()
         else:
             modes = [int(rng.integers(4, 37))]; mb = 'modes:single-high'
             if i % 3 == 0:
